@@ -4632,3 +4632,944 @@ func ruleBindDepth(c *Ctx, r *Rep) {
 		r.Undecided("binddepth:census", token.NoPos, "no named binding for a body found in the compiler")
 	}
 }
+
+// ---------------------------------------------------------------------------------------------------------------------
+// Rules from the fifth batch of seeded changes.
+
+func init() {
+	reg(&Rule{ID: "R-C02-presence", Props: []string{"C02", "C03"}, Floor: 0,
+		Doc: "in the update family (the functions that carry the allocator) the presence of an object key is decided by the comma-ok form of the lookup, never by comparing the looked-up value with nil: null is a value, and `del(.a)` must remove a key that holds null",
+		Run: rulePresence})
+	reg(&Rule{ID: "R-C02-nilkey", Props: []string{"C02", "C08"}, Floor: 1,
+		Doc: "funcIndex2 yields a value only in the arms of its switch over the key that name a kind of key (string, number, array, object); the default arm, which receives null and every other kind, returns errors only: the path stack uses a nil component as its bottom sentinel, so a null key that navigates makes poppaths stop early and oppathend assert the wrong type",
+		Run: ruleNilKey})
+	reg(&Rule{ID: "R-C11-sortcompare", Props: []string{"C11"}, Floor: 2,
+		Doc: "every comparator handed to a sort over JSON values in package gojq decides by Compare (or by Go's string order on object keys): a comparator over converted keys (floats) orders 9007199254740993 and 9007199254740992 as equal",
+		Run: ruleSortCompare})
+	reg(&Rule{ID: "R-C11-nojoin", Props: []string{"C11"}, Floor: 1,
+		Doc: "Compare and what it calls build no composite text to compare (strings.Join, fmt.Sprint*, a JSON encoding): joining key lists with a separator is not injective ({\"\":null} against {}, \"a\\u0000b\" against \"a\",\"b\")",
+		Run: ruleNoJoin})
+	reg(&Rule{ID: "R-C16-more", Props: []string{"C16", "C08"}, Floor: 1,
+		Doc: "(*json.Decoder).More, which is also false in front of a closing bracket, is consulted only by the token-level reader that tracks the container it is in: as a test for 'nothing follows this value' it accepts `1 ]`",
+		Run: ruleDecoderMore})
+	reg(&Rule{ID: "R-C07-ctxregister", Props: []string{"C07", "C20"}, Floor: 0,
+		Doc: "nothing reachable from Next derives from or registers on the caller's context (context.AfterFunc, WithCancel, WithTimeout, WithDeadline, WithValue): a registration per call accumulates on a context that outlives the run",
+		Run: ruleCtxRegister})
+	reg(&Rule{ID: "R-C16-closeinnext", Props: []string{"C16", "C15"}, Floor: 0,
+		Doc: "no Next method of an input iterator calls the iterator's own Close: Close is terminal for the whole iterator (later files, standard input), an error in one file ends that file only",
+		Run: ruleCloseInNext})
+	reg(&Rule{ID: "R-C01-reentrynet", Props: []string{"C01", "C20"}, Floor: 1,
+		Doc: "where a VM clause continues execution from its backtracking branch (a catch clause, an alternative), the branches of the type switch that selects what to push have the same net effect on the data stack: a branch that keeps the value its sibling pops leaves one entry per turn of a forward loop",
+		Run: ruleReentryNet})
+	addDecided("C02", " Presence of a key is decided by comma-ok in the update family (R-C02-presence); a key that is not a string, number, array or object never navigates (R-C02-nilkey); opiter tests pathIntact before it can leave (R-C02-nav).")
+	addDecided("C11", " Sort comparators decide by Compare (R-C11-sortcompare); Compare joins no text (R-C11-nojoin).")
+	addDecided("C16", " Decoder.More is consulted by the token-level reader only (R-C16-more); Next never calls the iterator's own Close (R-C16-closeinnext).")
+	addDecided("C01", " Sibling branches of a clause's re-entry have equal stack effect (R-C01-reentrynet).")
+}
+
+func hasAllocatorParam(info *types.Info, fd *ast.FuncDecl) bool {
+	if fd.Type.Params == nil {
+		return false
+	}
+	for _, f := range fd.Type.Params.List {
+		if t := info.TypeOf(f.Type); t != nil {
+			if n := namedOf(t); n != nil && n.Obj().Name() == "allocator" {
+				return true
+			}
+		}
+	}
+	return false
+}
+
+func rulePresence(c *Ctx, r *Rep) {
+	info := c.Gojq.TypesInfo
+	n, fam := 0, 0
+	for _, fd := range c.Decls(c.Gojq) {
+		if !hasAllocatorParam(info, fd) {
+			continue
+		}
+		fam++
+		// variables bound to a single-value map lookup
+		looked := map[types.Object]bool{}
+		isLookup := func(e ast.Expr) bool {
+			ix, ok := unparen(e).(*ast.IndexExpr)
+			if !ok {
+				return false
+			}
+			_, ok = info.TypeOf(ix.X).Underlying().(*types.Map)
+			return ok
+		}
+		ast.Inspect(fd.Body, func(m ast.Node) bool {
+			if as, ok := m.(*ast.AssignStmt); ok && len(as.Lhs) == 1 && len(as.Rhs) == 1 && isLookup(as.Rhs[0]) {
+				if id, ok := as.Lhs[0].(*ast.Ident); ok {
+					looked[info.ObjectOf(id)] = true
+				}
+			}
+			return true
+		})
+		ast.Inspect(fd.Body, func(m ast.Node) bool {
+			b, ok := m.(*ast.BinaryExpr)
+			if !ok || (b.Op != token.EQL && b.Op != token.NEQ) {
+				return true
+			}
+			for _, pr := range [][2]ast.Expr{{b.X, b.Y}, {b.Y, b.X}} {
+				if id, ok := unparen(pr[1]).(*ast.Ident); !ok || id.Name != "nil" {
+					continue
+				}
+				x := unparen(pr[0])
+				hit := isLookup(x)
+				if id, ok := x.(*ast.Ident); ok && looked[info.ObjectOf(id)] {
+					hit = true
+				}
+				if hit {
+					n++
+					r.Bad("presence:"+declKey(fd)+":"+c.Src(b), b.Pos(), "%s decides by `%s` whether an object has a key: the looked-up value is nil for a missing key and for a key that holds null alike, so deleting a null-valued key does nothing (`{\"a\":null} | del(.a)` keeps a)", declKey(fd), c.Src(b))
+				}
+			}
+			return true
+		})
+	}
+	if fam == 0 {
+		r.Undecided("presence:census", token.NoPos, "no function carries the allocator")
+	} else if n == 0 {
+		r.OK("presence:none", token.NoPos, "%d functions of the update family examined: none compares a looked-up value with nil", fam)
+	}
+}
+
+func ruleNilKey(c *Ctx, r *Rep) {
+	info := c.Gojq.TypesInfo
+	fd := c.Decl(c.Gojq, "funcIndex2")
+	if fd == nil || fd.Type.Params == nil {
+		r.Undecided("nilkey:anchor", token.NoPos, "funcIndex2 not found")
+		return
+	}
+	var params []types.Object
+	for _, f := range fd.Type.Params.List {
+		for _, nm := range f.Names {
+			params = append(params, info.Defs[nm])
+		}
+	}
+	if len(params) < 3 {
+		r.Undecided("nilkey:params", fd.Pos(), "funcIndex2 has fewer than three parameters")
+		return
+	}
+	found := false
+	ast.Inspect(fd.Body, func(m ast.Node) bool {
+		ts, ok := m.(*ast.TypeSwitchStmt)
+		if !ok || found {
+			return true
+		}
+		var x ast.Expr
+		switch a := ts.Assign.(type) {
+		case *ast.AssignStmt:
+			x = a.Rhs[0].(*ast.TypeAssertExpr).X
+		case *ast.ExprStmt:
+			x = a.X.(*ast.TypeAssertExpr).X
+		}
+		id, ok := unparen(x).(*ast.Ident)
+		if !ok || info.ObjectOf(id) != params[2] {
+			return true
+		}
+		found = true
+		for _, s := range ts.Body.List {
+			cc := s.(*ast.CaseClause)
+			named := cc.List != nil
+			for _, e := range cc.List {
+				if types.ExprString(e) == "nil" {
+					named = false
+				}
+			}
+			if named {
+				continue
+			}
+			// default (or an explicit nil arm): every return is an error literal
+			okAll, any := true, false
+			for _, st := range cc.Body {
+				ast.Inspect(st, func(q ast.Node) bool {
+					rs, ok := q.(*ast.ReturnStmt)
+					if !ok || len(rs.Results) != 1 {
+						return true
+					}
+					any = true
+					u, ok := unparen(rs.Results[0]).(*ast.UnaryExpr)
+					if !ok || u.Op != token.AND {
+						okAll = false
+						return true
+					}
+					cl, ok := u.X.(*ast.CompositeLit)
+					if !ok || !strings.HasSuffix(types.ExprString(cl.Type), "Error") {
+						okAll = false
+					}
+					return true
+				})
+			}
+			r.Check(okAll && any, "nilkey:funcIndex2:default", cc.Pos(), "the arm of funcIndex2 that receives null and every other kind of key returns errors only: %v", okAll && any)
+		}
+		return false
+	})
+	if !found {
+		r.Undecided("nilkey:switch", fd.Pos(), "funcIndex2 does not switch over the type of its key")
+	}
+}
+
+func ruleSortCompare(c *Ctx, r *Rep) {
+	info := c.Gojq.TypesInfo
+	n := 0
+	for _, fd := range c.Decls(c.Gojq) {
+		if f := c.PhysFile(fd.Pos()); f == "parser.go" || f == "builtin.go" {
+			continue
+		}
+		ast.Inspect(fd.Body, func(m ast.Node) bool {
+			call, ok := m.(*ast.CallExpr)
+			if !ok {
+				return true
+			}
+			nm := calleeName(info, call)
+			var cmpArg ast.Expr
+			switch nm {
+			case "sort.Slice", "sort.SliceStable":
+				if len(call.Args) == 2 {
+					cmpArg = call.Args[1]
+				}
+			case "slices.SortFunc", "slices.SortStableFunc", "slices.BinarySearchFunc", "slices.MinFunc", "slices.MaxFunc":
+				cmpArg = call.Args[len(call.Args)-1]
+			default:
+				return true
+			}
+			if cmpArg == nil {
+				return true
+			}
+			// does the sorted slice hold JSON values (an `any`, or a struct/pointer with an `any` field)?
+			holdsJSON := false
+			if st, ok := info.TypeOf(call.Args[0]).Underlying().(*types.Slice); ok {
+				var has func(t types.Type, depth int) bool
+				has = func(t types.Type, depth int) bool {
+					if depth > 3 {
+						return false
+					}
+					switch u := t.Underlying().(type) {
+					case *types.Interface:
+						return u.NumMethods() == 0
+					case *types.Pointer:
+						return has(u.Elem(), depth+1)
+					case *types.Struct:
+						for i := 0; i < u.NumFields(); i++ {
+							if has(u.Field(i).Type(), depth+1) {
+								return true
+							}
+						}
+					case *types.Array:
+						return has(u.Elem(), depth+1)
+					}
+					return false
+				}
+				holdsJSON = has(st.Elem(), 0)
+			}
+			if !holdsJSON {
+				return true
+			}
+			n++
+			key := fmt.Sprintf("sortcompare:%s:%s", declKey(fd), nm)
+			usesCompare := false
+			var body ast.Node = cmpArg
+			if id, ok := unparen(cmpArg).(*ast.Ident); ok {
+				if f, ok := info.Uses[id].(*types.Func); ok {
+					if f.Name() == "Compare" {
+						usesCompare = true
+					} else if d := c.Decl(c.Gojq, f.Name()); d != nil {
+						body = d.Body
+					}
+				}
+			}
+			ast.Inspect(body, func(q ast.Node) bool {
+				if cl, ok := q.(*ast.CallExpr); ok && calleeName(info, cl) == "gojq.Compare" {
+					usesCompare = true
+				}
+				return true
+			})
+			if !usesCompare {
+				// object keys: Go's string order is jq's order on strings
+				strOrder := false
+				ast.Inspect(body, func(q ast.Node) bool {
+					if b, ok := q.(*ast.BinaryExpr); ok && (b.Op == token.LSS || b.Op == token.GTR) {
+						tx, ty := info.TypeOf(b.X), info.TypeOf(b.Y)
+						if tx != nil && ty != nil {
+							bx, ok1 := tx.Underlying().(*types.Basic)
+							by, ok2 := ty.Underlying().(*types.Basic)
+							if ok1 && ok2 && bx.Info()&types.IsString != 0 && by.Info()&types.IsString != 0 {
+								strOrder = true
+							}
+						}
+					}
+					return true
+				})
+				if strOrder {
+					r.OK(key, call.Pos(), "the comparator of %s in %s orders object keys by Go's string order, which is jq's order on strings", nm, declKey(fd))
+					return true
+				}
+			}
+			r.Check(usesCompare, key, call.Pos(), "the comparator of %s in %s decides by Compare: %v — a comparator over keys converted beforehand (toFloat) cannot tell integers above 2^53 apart, so sort is no longer ordered by <= and unique keeps duplicates", nm, declKey(fd), usesCompare)
+			return true
+		})
+	}
+	if n == 0 {
+		r.Undecided("sortcompare:census", token.NoPos, "no sort over JSON values found in package gojq")
+	}
+}
+
+func ruleNoJoin(c *Ctx, r *Rep) {
+	info := c.Gojq.TypesInfo
+	fd := c.Decl(c.Gojq, "Compare")
+	if fd == nil {
+		r.Undecided("nojoin:anchor", token.NoPos, "Compare not found")
+		return
+	}
+	// Compare and the package functions it calls (depth 2)
+	seen := map[*ast.FuncDecl]bool{}
+	var bad []string
+	var walk func(d *ast.FuncDecl, depth int)
+	walk = func(d *ast.FuncDecl, depth int) {
+		if seen[d] || depth > 2 {
+			return
+		}
+		seen[d] = true
+		ast.Inspect(d.Body, func(m ast.Node) bool {
+			call, ok := m.(*ast.CallExpr)
+			if !ok {
+				return true
+			}
+			nm := calleeName(info, call)
+			switch {
+			case nm == "strings.Join", strings.HasPrefix(nm, "fmt.Sprint"), nm == "json.Marshal", nm == "gojq.jsonMarshal", nm == "gojq.Marshal", strings.HasPrefix(nm, "strings.Builder."), nm == "bytes.Join":
+				bad = append(bad, fmt.Sprintf("%s in %s", nm, declKey(d)))
+			}
+			if f, ok := callee(info, call).(*types.Func); ok && f.Pkg() == c.Gojq.Types {
+				if t := c.Decl(c.Gojq, f.Name()); t != nil {
+					walk(t, depth+1)
+				}
+			}
+			return true
+		})
+	}
+	walk(fd, 0)
+	sort.Strings(bad)
+	r.Check(len(bad) == 0, "nojoin:Compare", fd.Pos(), "Compare and the %d package functions it reaches build no composite text to compare: %v %v", len(seen)-1, len(bad) == 0, bad)
+}
+
+func ruleDecoderMore(c *Ctx, r *Rep) {
+	n := 0
+	for _, p := range []*packages.Package{c.Gojq, c.Cli} {
+		if p == nil {
+			continue
+		}
+		info := p.TypesInfo
+		for _, fd := range c.Decls(p) {
+			ast.Inspect(fd.Body, func(m ast.Node) bool {
+				call, ok := m.(*ast.CallExpr)
+				if !ok {
+					return true
+				}
+				if o := callee(info, call); o == nil || objPath(o) != "encoding/json.(Decoder).More" {
+					return true
+				}
+				n++
+				// the function also reads with Token: it is the token-level reader, which knows what container it is in
+				tokens := false
+				ast.Inspect(fd.Body, func(q ast.Node) bool {
+					if cl, ok := q.(*ast.CallExpr); ok {
+						if o := callee(info, cl); o != nil && objPath(o) == "encoding/json.(Decoder).Token" {
+							tokens = true
+						}
+					}
+					return true
+				})
+				r.Check(tokens, "more:"+declKey(fd), call.Pos(), "%s consults (*json.Decoder).More and reads tokens itself: %v — More is false in front of `]` and `}` too, so as a test that nothing follows a decoded value it accepts `1 ]` and `{\"a\":1}}`", declKey(fd), tokens)
+				return true
+			})
+		}
+	}
+	if n == 0 {
+		r.Undecided("more:census", token.NoPos, "(*json.Decoder).More is not used (the --stream reader uses it)")
+	}
+}
+
+func ruleCtxRegister(c *Ctx, r *Rep) {
+	info := c.Gojq.TypesInfo
+	n, bad := 0, 0
+	for _, fd := range c.Decls(c.Gojq) {
+		ast.Inspect(fd.Body, func(m ast.Node) bool {
+			call, ok := m.(*ast.CallExpr)
+			if !ok {
+				return true
+			}
+			switch nm := calleeName(info, call); nm {
+			case "context.AfterFunc", "context.WithCancel", "context.WithTimeout", "context.WithDeadline", "context.WithValue", "context.WithCancelCause", "context.WithoutCancel":
+				n++
+				bad++
+				r.Bad("ctxregister:"+declKey(fd)+":"+nm, call.Pos(), "%s calls %s: the library polls the caller's context, it never derives from it or registers on it — a callback registered per Next call stays on the caller's context and keeps the run alive", declKey(fd), nm)
+			}
+			return true
+		})
+	}
+	if bad == 0 {
+		r.OK("ctxregister:none", token.NoPos, "package gojq derives nothing from and registers nothing on a context")
+	}
+}
+
+func ruleCloseInNext(c *Ctx, r *Rep) {
+	p := c.Cli
+	info := p.TypesInfo
+	n, bad := 0, 0
+	for _, fd := range c.Decls(p) {
+		if fd.Name.Name != "Next" || fd.Recv == nil || len(fd.Recv.List) != 1 || len(fd.Recv.List[0].Names) != 1 {
+			continue
+		}
+		recv := info.Defs[fd.Recv.List[0].Names[0]]
+		n++
+		ast.Inspect(fd.Body, func(m ast.Node) bool {
+			call, ok := m.(*ast.CallExpr)
+			if !ok {
+				return true
+			}
+			sel, ok := call.Fun.(*ast.SelectorExpr)
+			if !ok || sel.Sel.Name != "Close" {
+				return true
+			}
+			if id, ok := unparen(sel.X).(*ast.Ident); ok && info.ObjectOf(id) == recv {
+				bad++
+				r.Bad("closeinnext:"+declKey(fd), call.Pos(), "%s calls its own Close: Close ends the whole iterator (the files and standard input still to come are never read), where an error in one input ends that input only", declKey(fd))
+			}
+			return true
+		})
+	}
+	if bad == 0 {
+		r.OK("closeinnext:none", token.NoPos, "%d Next methods of the command examined: none calls its own Close", n)
+	}
+}
+
+// ruleReentryNet: in the backtracking branch of a VM clause that continues execution (pc is reassigned and control goes back
+// to the loop), the arms of a type switch over the error differ only in what they push: their push/pop counts agree.
+func ruleReentryNet(c *Ctx, r *Rep) {
+	vm := getVM(c)
+	if vm.Err != "" {
+		r.Undecided("vm-model", token.NoPos, "%s", vm.Err)
+		return
+	}
+	n := 0
+	for _, cl := range vm.Clauses {
+		name := strings.Join(cl.Ops, ",")
+		ast.Inspect(cl.CC, func(m ast.Node) bool {
+			ts, ok := m.(*ast.TypeSwitchStmt)
+			if !ok {
+				return true
+			}
+			// a switch over the error being handled: what differs between its arms is the value handed to the handler
+			var tag ast.Expr
+			switch a := ts.Assign.(type) {
+			case *ast.AssignStmt:
+				tag = a.Rhs[0].(*ast.TypeAssertExpr).X
+			case *ast.ExprStmt:
+				tag = a.X.(*ast.TypeAssertExpr).X
+			}
+			if t := vm.info.TypeOf(tag); t == nil || types.TypeString(t, nil) != "error" {
+				return true
+			}
+			// arms that fall out of the switch (no break/return/goto as last statement) continue to the shared tail
+			type eff struct{ push, pop int }
+			var arms []string
+			var effs []eff
+			for _, s := range ts.Body.List {
+				cc := s.(*ast.CaseClause)
+				if len(cc.Body) > 0 {
+					switch cc.Body[len(cc.Body)-1].(type) {
+					case *ast.BranchStmt, *ast.ReturnStmt:
+						continue
+					}
+				}
+				var e eff
+				for _, st := range cc.Body {
+					ast.Inspect(st, func(q ast.Node) bool {
+						if call, ok := q.(*ast.CallExpr); ok {
+							switch vm.envMethod(call) {
+							case "push":
+								e.push++
+							case "pop":
+								e.pop++
+							}
+						}
+						return true
+					})
+				}
+				label := "default"
+				if cc.List != nil {
+					label = types.ExprString(cc.List[0])
+				}
+				arms = append(arms, label)
+				effs = append(effs, e)
+			}
+			if len(arms) < 2 {
+				return true
+			}
+			n++
+			same := true
+			for _, e := range effs[1:] {
+				if e.push-e.pop != effs[0].push-effs[0].pop {
+					same = false
+				}
+			}
+			var desc []string
+			for i, a := range arms {
+				desc = append(desc, fmt.Sprintf("%s: +%d −%d", a, effs[i].push, effs[i].pop))
+			}
+			r.Check(same, "reentrynet:"+name, ts.Pos(), "the arms of the type switch in %s that continue to the shared tail have the same net effect on the data stack (%s): %v — an arm that pushes without the pop its sibling makes leaves the stale input of the try under the result, one entry per turn of `until`/`while`", name, strings.Join(desc, "; "), same)
+			return true
+		})
+	}
+	if n == 0 {
+		r.Undecided("reentrynet:census", token.NoPos, "no VM clause selects what to push by a type switch with two continuing arms (opforktrybegin has one)")
+	}
+}
+
+// ---------------------------------------------------------------------------------------------------------------------
+// R-C15-errorcode: under --exit-status a failed run is never mistaken for a successful one.
+
+func init() {
+	reg(&Rule{ID: "R-C15-errorcode", Props: []string{"C15"}, Floor: 1,
+		Doc: "the --exit-status hook replaces the result by the last-output status exactly when the run did not fail; where it recognises a failure by the error having an ExitCode method, the error that stands for 'diagnostics already printed' (the type marked isEmptyError) has that method itself, with the default error status as its fall-back — behind an Unwrap the plain type assertion of the hook no longer sees it, and a type error under -e exits 0, 1 or 4",
+		Run: ruleErrorCode})
+	addDecided("C15", " Under --exit-status the already-reported error carries an exit status of its own (R-C15-errorcode).")
+}
+
+func ruleErrorCode(c *Ctx, r *Rep) {
+	p := c.Cli
+	fd := c.Decl(p, "cli.runInternal")
+	if fd == nil {
+		r.Undecided("errorcode:anchor", token.NoPos, "cli.runInternal not found")
+		return
+	}
+	// the hook: a deferred literal that assigns the exitCodeError cell to err under a condition
+	var cond ast.Expr
+	ast.Inspect(fd.Body, func(m ast.Node) bool {
+		d, ok := m.(*ast.DeferStmt)
+		if !ok {
+			return true
+		}
+		fl, ok := d.Call.Fun.(*ast.FuncLit)
+		if !ok {
+			return true
+		}
+		ast.Inspect(fl.Body, func(q ast.Node) bool {
+			ifs, ok := q.(*ast.IfStmt)
+			if !ok {
+				return true
+			}
+			for _, st := range ifs.Body.List {
+				if as, ok := st.(*ast.AssignStmt); ok && len(as.Lhs) == 1 && len(as.Rhs) == 1 && types.ExprString(as.Lhs[0]) == "err" && strings.Contains(types.ExprString(as.Rhs[0]), "exitCodeError") {
+					cond = ifs.Cond
+					if ifs.Init != nil {
+						cond = nil
+						// if _, ok := err.(interface{ ExitCode() int }); !ok
+						if as2, ok := ifs.Init.(*ast.AssignStmt); ok && len(as2.Rhs) == 1 {
+							cond = as2.Rhs[0]
+						}
+					}
+				}
+			}
+			return true
+		})
+		return true
+	})
+	if cond == nil {
+		r.Undecided("errorcode:hook", fd.Pos(), "the deferred --exit-status hook (`err = cli.exitCodeError` under a condition) was not found in runInternal")
+		return
+	}
+	src := c.Src(cond)
+	// a helper of the package that looks for the ExitCode method (by assertion or errors.As) is read through
+	if call, ok := unparen(cond).(*ast.CallExpr); ok {
+		if f, ok := callee(p.TypesInfo, call).(*types.Func); ok && f.Pkg() == p.Types {
+			if d := c.Decl(p, f.Name()); d != nil && strings.Contains(c.Src(d.Body), "ExitCode") {
+				src = "ExitCode (through " + f.Name() + ")"
+				cond = &ast.TypeAssertExpr{X: call, Lparen: call.Pos(), Rparen: call.End()}
+			}
+		}
+	}
+	switch {
+	case strings.Contains(src, "err == nil") || strings.Contains(src, "nil == err"):
+		r.OK("errorcode:hook", cond.Pos(), "the hook recognises a successful run by err == nil")
+		return
+	case strings.Contains(src, "ExitCode"):
+		// decided by a type assertion (or a helper) on ExitCode: the already-printed error must have the method directly
+		if _, isAssert := unparen(cond).(*ast.TypeAssertExpr); !isAssert {
+			r.Bad("errorcode:hook", cond.Pos(), "the --exit-status hook decides by `%s` whether the run failed: only a plain type assertion on the error itself is known to see the ExitCode method of the already-reported error; through a helper (errors.As over a chain, say) the answer depends on what the wrapped error is, and a type error under -e exits 0, 1 or 4 instead of 5", src)
+			return
+		}
+	default:
+		r.Undecided("errorcode:hook", cond.Pos(), "the hook decides by `%s`, which this rule cannot read", src)
+		return
+	}
+	n := 0
+	for _, d := range c.Decls(p) {
+		if d.Name.Name != "isEmptyError" || d.Recv == nil {
+			continue
+		}
+		tn := recvTypeName(d)
+		n++
+		ec := c.Decl(p, tn+".ExitCode")
+		if ec == nil {
+			r.Bad("errorcode:"+tn, d.Pos(), "%s, the error that stands for diagnostics already printed, has no ExitCode method: the --exit-status hook takes an error without one for a successful run and replaces it by the last-output status (a type error under -e then exits 0, 1 or 4 instead of 5)", tn)
+			continue
+		}
+		// its fall-back is the default error status
+		fallback := false
+		ast.Inspect(ec.Body, func(q ast.Node) bool {
+			if rs, ok := q.(*ast.ReturnStmt); ok && len(rs.Results) == 1 {
+				if id, ok := unparen(rs.Results[0]).(*ast.Ident); ok && id.Name == "exitCodeDefaultErr" {
+					fallback = true
+				}
+			}
+			return true
+		})
+		delegates := false
+		ast.Inspect(ec.Body, func(q ast.Node) bool {
+			if _, ok := q.(*ast.IfStmt); ok {
+				delegates = true
+			}
+			return true
+		})
+		if !delegates {
+			r.OK("errorcode:"+tn, ec.Pos(), "%s.ExitCode returns a status of its own unconditionally", tn)
+			continue
+		}
+		r.Check(fallback, "errorcode:"+tn, ec.Pos(), "%s.ExitCode falls back to the default error status when the wrapped error has none: %v", tn, fallback)
+	}
+	if n == 0 {
+		r.Undecided("errorcode:census", token.NoPos, "no error type is marked isEmptyError")
+	}
+}
+
+// ---------------------------------------------------------------------------------------------------------------------
+// R-C09-scanindex: a scanning helper returns the offset it leaves the lexer at.
+
+func init() {
+	reg(&Rule{ID: "R-C09-scanindex", Props: []string{"C09", "C17"}, Floor: 3,
+		Doc: "a lexer method whose int result its caller uses as the end of the token (a bound of a slice of the source) returns the offset the lexer is at when it returns: l.offset itself, the result of such a method, or a variable that held one of these at a point from which every path to the return moves the offset by a net zero — a look-ahead that is given back only in part ({a::1}: one of two colons) leaves a byte outside every token",
+		Run: ruleScanIndex})
+	addDecided("C09", " The index a scanning helper returns is the lexer's offset at that moment (R-C09-scanindex).")
+}
+
+func ruleScanIndex(c *Ctx, r *Rep) {
+	info := c.Gojq.TypesInfo
+	methods := map[types.Object]*ast.FuncDecl{}
+	for _, fd := range c.Decls(c.Gojq) {
+		if c.PhysFile(fd.Pos()) == "lexer.go" && recvTypeName(fd) == "lexer" {
+			if o := info.Defs[fd.Name]; o != nil {
+				methods[o] = fd
+			}
+		}
+	}
+	// index-returning methods: their (first) result reaches a bound of a slice of `.source`
+	indexFn := map[*ast.FuncDecl]bool{}
+	for _, fd := range methods {
+		// variables bound to a call result
+		boundTo := map[types.Object]*ast.FuncDecl{}
+		ast.Inspect(fd.Body, func(m ast.Node) bool {
+			if as, ok := m.(*ast.AssignStmt); ok && len(as.Rhs) == 1 {
+				if call, ok := unparen(as.Rhs[0]).(*ast.CallExpr); ok {
+					if t := methods[callee(info, call)]; t != nil && len(as.Lhs) >= 1 {
+						if id, ok := as.Lhs[0].(*ast.Ident); ok {
+							boundTo[info.ObjectOf(id)] = t
+						}
+					}
+				}
+			}
+			return true
+		})
+		ast.Inspect(fd.Body, func(m ast.Node) bool {
+			se, ok := m.(*ast.SliceExpr)
+			if !ok || !strings.HasSuffix(types.ExprString(se.X), ".source") {
+				return true
+			}
+			for _, b := range []ast.Expr{se.Low, se.High} {
+				if b == nil {
+					continue
+				}
+				ast.Inspect(b, func(q ast.Node) bool {
+					switch x := q.(type) {
+					case *ast.CallExpr:
+						if t := methods[callee(info, x)]; t != nil {
+							indexFn[t] = true
+						}
+					case *ast.Ident:
+						if t := boundTo[info.ObjectOf(x)]; t != nil {
+							indexFn[t] = true
+						}
+					}
+					return true
+				})
+			}
+			return true
+		})
+	}
+	n := 0
+	for fd := range indexFn {
+		recv := info.Defs[fd.Recv.List[0].Names[0]]
+		isOffset := func(e ast.Expr) bool {
+			e = unparen(e)
+			if u, ok := e.(*ast.UnaryExpr); ok && u.Op == token.SUB {
+				e = unparen(u.X)
+			}
+			sel, ok := e.(*ast.SelectorExpr)
+			if !ok || sel.Sel.Name != "offset" {
+				return false
+			}
+			id, ok := unparen(sel.X).(*ast.Ident)
+			return ok && info.ObjectOf(id) == recv
+		}
+		isIndexCall := func(e ast.Expr) bool {
+			call, ok := unparen(e).(*ast.CallExpr)
+			return ok && indexFn[methods[callee(info, call)]]
+		}
+		// movement of one cfg node: (delta, ok); !ok: a lexer method other than peek is called, or a non-constant move
+		move := func(nd ast.Node) (int, bool) {
+			d, ok := 0, true
+			ast.Inspect(nd, func(q ast.Node) bool {
+				switch x := q.(type) {
+				case *ast.FuncLit:
+					return false
+				case *ast.IncDecStmt:
+					if sel, isSel := unparen(x.X).(*ast.SelectorExpr); isSel && sel.Sel.Name == "offset" {
+						if x.Tok == token.INC {
+							d++
+						} else {
+							d--
+						}
+					}
+				case *ast.AssignStmt:
+					for i, l := range x.Lhs {
+						if sel, isSel := unparen(l).(*ast.SelectorExpr); isSel && sel.Sel.Name == "offset" {
+							k, isConst := constInt(info, x.Rhs[min(i, len(x.Rhs)-1)])
+							switch {
+							case x.Tok == token.ADD_ASSIGN && isConst:
+								d += int(k)
+							case x.Tok == token.SUB_ASSIGN && isConst:
+								d -= int(k)
+							default:
+								ok = false
+							}
+						}
+					}
+				case *ast.CallExpr:
+					if sel, isSel := x.Fun.(*ast.SelectorExpr); isSel {
+						if id, isId := unparen(sel.X).(*ast.Ident); isId && info.ObjectOf(id) == recv && sel.Sel.Name != "peek" {
+							if _, isFn := info.Uses[sel.Sel].(*types.Func); isFn {
+								ok = false
+							}
+						}
+					}
+				}
+				return true
+			})
+			return d, ok
+		}
+		g := cfg.New(fd.Body, func(*ast.CallExpr) bool { return true })
+		locate := func(nd ast.Node) (*cfg.Block, int, bool) {
+			var bb *cfg.Block
+			bi, bl := -1, token.Pos(-1)
+			for _, b := range g.Blocks {
+				for i, x := range b.Nodes {
+					if x.Pos() <= nd.Pos() && nd.End() <= x.End() {
+						if l := x.End() - x.Pos(); bl < 0 || l < bl {
+							bb, bi, bl = b, i, l
+						}
+					}
+				}
+			}
+			return bb, bi, bi >= 0
+		}
+		ast.Inspect(fd.Body, func(m ast.Node) bool {
+			if _, ok := m.(*ast.FuncLit); ok {
+				return false
+			}
+			rs, ok := m.(*ast.ReturnStmt)
+			if !ok || len(rs.Results) == 0 {
+				return true
+			}
+			n++
+			e := rs.Results[0]
+			key := fmt.Sprintf("scanindex:%s:return %s", declKey(fd), c.Src(e))
+			if isOffset(e) || isIndexCall(e) {
+				r.OK(key, rs.Pos(), "%s returns the offset itself (or what a scanning helper returns)", declKey(fd))
+				return true
+			}
+			id, ok := unparen(e).(*ast.Ident)
+			if !ok {
+				r.Undecided(key, rs.Pos(), "%s returns `%s` as the end of the token: not the offset, a helper's result or a variable", declKey(fd), c.Src(e))
+				return true
+			}
+			obj := info.ObjectOf(id)
+			// every assignment of the variable that is an offset/helper result: from each, all paths to this return are net zero
+			rb, ri, okr := locate(rs)
+			if !okr {
+				r.Undecided(key, rs.Pos(), "the return was not found in the control-flow graph")
+				return true
+			}
+			var defs []ast.Node
+			okDefs := true
+			ast.Inspect(fd.Body, func(q ast.Node) bool {
+				if as, ok := q.(*ast.AssignStmt); ok && len(as.Rhs) >= 1 {
+					for i, l := range as.Lhs {
+						if lid, ok := l.(*ast.Ident); ok && info.ObjectOf(lid) == obj {
+							rhs := as.Rhs[min(i, len(as.Rhs)-1)]
+							if len(as.Rhs) == 1 && len(as.Lhs) > 1 {
+								rhs = as.Rhs[0]
+							}
+							if isOffset(rhs) || isIndexCall(rhs) {
+								defs = append(defs, as)
+							} else {
+								okDefs = false
+							}
+						}
+					}
+				}
+				return true
+			})
+			if !okDefs || len(defs) == 0 {
+				r.Undecided(key, rs.Pos(), "%s is assigned something other than the offset or a scanning helper's result", id.Name)
+				return true
+			}
+			bad := ""
+			for _, d := range defs {
+				db, di, okd := locate(d)
+				if !okd {
+					continue
+				}
+				// DFS over (block, index, delta); a definition of the variable on the way restarts the count (stop there)
+				type st struct {
+					b     *cfg.Block
+					i, dl int
+				}
+				seen := map[[3]int]bool{}
+				stack := []st{{db, di + 1, 0}}
+				for len(stack) > 0 && bad == "" {
+					s := stack[len(stack)-1]
+					stack = stack[:len(stack)-1]
+					dl := s.dl
+					dead := false
+					for i := s.i; i < len(s.b.Nodes); i++ {
+						nd := s.b.Nodes[i]
+						if s.b == rb && i == ri {
+							if dl != 0 {
+								bad = fmt.Sprintf("on a path from `%s` the offset has moved by %+d when `%s` is returned", c.Src(d), dl, id.Name)
+							}
+							dead = true
+							break
+						}
+						redefined := false
+						for _, d2 := range defs {
+							if nd.Pos() <= d2.Pos() && d2.End() <= nd.End() {
+								redefined = true
+							}
+						}
+						if redefined {
+							dead = true
+							break
+						}
+						mv, ok := move(nd)
+						if !ok {
+							bad = fmt.Sprintf("between `%s` and the return the lexer is moved by `%s`, which this rule cannot count", c.Src(d), c.Src(nd))
+							break
+						}
+						dl += mv
+						if dl > 8 || dl < -8 {
+							dead = true
+							break
+						}
+					}
+					if dead || bad != "" {
+						continue
+					}
+					for _, nx := range s.b.Succs {
+						k := [3]int{int(nx.Index), 0, dl}
+						if seen[k] {
+							continue
+						}
+						seen[k] = true
+						stack = append(stack, st{nx, 0, dl})
+					}
+				}
+			}
+			r.Check(bad == "", key, rs.Pos(), "%s returns %s, which held the offset, after a net movement of zero on every path: %v %s", declKey(fd), id.Name, bad == "", bad)
+			return true
+		})
+	}
+	if n == 0 {
+		r.Undecided("scanindex:census", token.NoPos, "no lexer method returns an index into the source")
+	}
+}
+
+// ---------------------------------------------------------------------------------------------------------------------
+// R-C01-limitbreak: limit stops in the turn that delivers the last item.
+
+func init() {
+	reg(&Rule{ID: "R-C01-limitbreak", Props: []string{"C01", "C16", "C20"}, Floor: 1,
+		Doc: "in the shipped definition of limit/2 (read off builtin.go) the item is emitted and the break is taken in the same turn of the foreach: the extract is `$item, <something that breaks>`, not one conditional whose branches are the emission and the break — with the latter the break needs one more item from the generator, which `limit(1; inputs)` takes from the input and loses",
+		Run: ruleLimitBreak})
+}
+
+func ruleLimitBreak(c *Ctx, r *Rep) {
+	m, err := getBuiltinLit(c)
+	if err != nil {
+		r.Undecided("limitbreak:builtin.go", token.NoPos, "%v", err)
+		return
+	}
+	lst, _ := m.fields["limit"].([]any)
+	n := 0
+	for _, d := range lst {
+		fdn, ok := d.(*litNode)
+		if !ok || fdn == nil {
+			continue
+		}
+		hasBreak := func(x any) bool {
+			f := false
+			litWalk(x, func(n *litNode) {
+				if n.typ == "Term" && nStr(n, "Break") != "" {
+					f = true
+				}
+			})
+			return f
+		}
+		emitsItem := func(x any) bool { return litMentionsFunc(x, "$item") }
+		if !hasBreak(fdn) {
+			continue
+		}
+		n++
+		verdict, why := "undecided", "the definition emits and breaks in a shape this rule does not know"
+		litWalk(nSub(fdn, "Body"), func(q *litNode) {
+			switch q.typ {
+			case "Query":
+				if opOf(q) == "OpComma" && emitsItem(nSub(q, "Left")) && !hasBreak(nSub(q, "Left")) && hasBreak(nSub(q, "Right")) {
+					verdict, why = "ok", "the extract is `$item, …break…`: emission and break happen in the same turn"
+				}
+			case "If":
+				thenB, elseB := nSub(q, "Then"), nSub(q, "Else")
+				if (emitsItem(thenB) && hasBreak(elseB) && !hasBreak(thenB)) || (emitsItem(elseB) && hasBreak(thenB) && !hasBreak(elseB)) {
+					if verdict != "ok" {
+						verdict, why = "bad", "emission of $item and the break are the two branches of one conditional: the break is only taken when the generator has delivered one item more than asked for"
+					}
+				}
+			}
+		})
+		key := fmt.Sprintf("limitbreak:limit/%d", len(nList(fdn, "Args")))
+		switch verdict {
+		case "ok":
+			r.OK(key, token.NoPos, "%s", why)
+		case "bad":
+			r.Bad(key, token.NoPos, "limit: %s — `[limit(2; inputs)]` consumes three inputs, and `first(inputs)` two", why)
+		default:
+			r.Undecided(key, token.NoPos, "%s", why)
+		}
+	}
+	if n == 0 {
+		r.Undecided("limitbreak:census", token.NoPos, "no shipped definition of limit contains a break")
+	}
+}
